@@ -5,6 +5,7 @@ import (
 	"bytes"
 	"context"
 	"fmt"
+	"github.com/evstack/ev-node/types"
 	"math/rand"
 	"os"
 	"sort"
@@ -21,9 +22,10 @@ const Level = "exploration"
 
 // step is one action of a schedule; adversarial material is attached to it.
 type step struct {
-	Act    world.Action
-	Adv    []Adv // placed at the same DA height as Act.DA (Act.Kind == "da")
-	AdvP2P *Adv  // a foreign header served over P2P at the next position (Act.Kind == "p2p-adv")
+	Act     world.Action
+	Adv     []Adv // placed at the same DA height as Act.DA (Act.Kind == "da")
+	AdvP2P  *Adv  // a foreign header served over P2P at the next position (Act.Kind == "p2p-adv")
+	Precede int   // genuine headers served in the same poll right before it
 }
 
 // Case is one generated differential case.
@@ -130,14 +132,30 @@ func runSide(ctx context.Context, r *vk.Run, p *world.Produced, steps []step, ad
 	for i, st := range steps {
 		a := st.Act
 		if a.Kind == "p2p-adv" {
-			if !adv || st.AdvP2P == nil {
+			if st.AdvP2P == nil {
 				continue
 			}
-			h := decodeHeaderLoose(st.AdvP2P.Blob)
-			if h == nil {
+			// the peer serves `Precede` genuine headers and then the foreign one, all within one poll of the store
+			// loop; the run without adversarial traffic gets the same genuine headers
+			next := f.P2PHeaderNext()
+			idx := next + st.Precede
+			if idx >= len(p.Heights) {
+				idx = len(p.Heights) - 1
+			}
+			var h *types.SignedHeader
+			if adv {
+				prng := rand.New(rand.NewSource(int64(i)*7919 + int64(idx)))
+				for _, it := range MakeAdv(prng, p, st.AdvP2P.Kind, idx, world.NewKeys("attacker")) {
+					if !it.IsData {
+						h = decodeHeaderLoose(it.Blob)
+						break
+					}
+				}
+			}
+			if idx-1 < next && h == nil {
 				continue
 			}
-			if err := f.AddForeignP2PHeader(h); err != nil {
+			if err := f.AddP2PBatch(idx-1, h); err != nil {
 				if err == world.ErrWatchdog {
 					return f, endState{}, "", true
 				}
@@ -394,7 +412,7 @@ func genCase(rng *rand.Rand, p *world.Produced, id int, shape string, atk world.
 		for i := range advs {
 			if advs[i].HdrHash != nil && !advs[i].IsData {
 				a := advs[i]
-				p2p = append(p2p, step{Act: world.Action{Kind: "p2p-adv"}, AdvP2P: &a})
+				p2p = append(p2p, step{Act: world.Action{Kind: "p2p-adv"}, AdvP2P: &a, Precede: rng.Intn(3)})
 			}
 		}
 		for _, st := range p2p {
@@ -405,7 +423,7 @@ func genCase(rng *rand.Rand, p *world.Produced, id int, shape string, atk world.
 	for _, st := range steps {
 		s := st.Act.String()
 		if st.Act.Kind == "p2p-adv" {
-			s = "p2p-adv(" + st.AdvP2P.Kind + ")"
+			s = fmt.Sprintf("p2p-adv(%s after %d genuine)", st.AdvP2P.Kind, st.Precede)
 		}
 		for _, a := range st.Adv {
 			s += "+" + a.Kind
